@@ -30,7 +30,7 @@ def run_y0(wd, items):
     for i, sh in enumerate(shards):
         if sh:
             f = wd / f"c17-in{i}.json"
-            f.write_text(json.dumps([{"g": it["g"], "gid": it["gid"], "qs": [q[:3] for q in it["qs"]]} for it in sh]))
+            f.write_text(json.dumps([{"g": it["g"], "gid": it["gid"], "qs": [q[:3] + q[4:5] for q in it["qs"]]} for it in sh]))
             jobs.append((f, wd / f"c17-out{i}.json"))
 
     def one(job):
@@ -75,7 +75,7 @@ def run(tier: str) -> int:
     spurious = 0
     for rid, v in vs.items():
         gid, qi, kind = rid.split(":")
-        if kind == "id" and v["clause"] == "refused" and idx[(gid, int(qi))][3]:
+        if kind in ("id", "idp") and v["clause"] == "refused" and idx[(gid, int(qi))][3]:
             spurious += 1
     sem = sorted(i for i, v in vs.items() if v["clause"] == "ok")
     per = {}
